@@ -302,6 +302,8 @@ def run(tier, seed, replay):
                             "libwit_bindgen_cabi_wasip3.a from the working tree is linked explicitly (build.rs links it only for target_env=p3)",
                             "wit-bindgen guest crate built without its `std` feature for the wasm32 build (no std on the custom target)",
                             "generator errors/panics are C16's business and counted as inconclusive here"]
+        if replay:
+            compz.replay_floor(rep, FLOORS, tier)
     finally:
         vcommon.rm_scratch(work)
     return rep
